@@ -4,6 +4,7 @@
 From Coq Require Import List NArith Bool Lia Arith ZArith ZifyBool ZifyN.
 From UP Require Import Base.Chars Base.Atoms Model.Uri Model.Ip4 Model.Parse Spec.NormalWf Spec.Unparse
   Proofs.ParseData Proofs.ParseWfStep.
+From UP Require Spec.Identity Proofs.DotSegments Proofs.ResolveProofs.
 Import ListNotations.
 Local Open Scope N_scope.
 
@@ -51,3 +52,151 @@ Proof.
   - cbn [InvU InvU0]. auto.
   - wunfold. wfields. wsplit; solve [watom].
 Qed.
+
+(* ---------------------------------------------------------------- delimiters do not occur inside components *)
+(* no character of [l] occurs in [t] *)
+Definition none_of (l : list N) (t : text) : Prop := forall c, In c l -> ~ In c t.
+
+Lemma class_none_of cls l t :
+  forallb cls t = true -> forallb (fun c => negb (cls c)) l = true -> none_of l t.
+Proof.
+  intros Ht Hl c Hc Hi. rewrite forallb_forall in Ht, Hl.
+  specialize (Ht c Hi). specialize (Hl c Hc). rewrite Ht in Hl. discriminate Hl.
+Qed.
+
+Lemma scheme_ok_class s : scheme_ok s -> s <> [] /\ forallb is_scheme_char s = true.
+Proof.
+  destruct s as [|c r]; [intros []|]. intros [H1 H2]. split; [discriminate|].
+  cbn [forallb]. rewrite (in_alpha_scheme _ H1), H2. reflexivity.
+Qed.
+
+(* what the character classes of [chars_ok] exclude, component by component *)
+Theorem parsed_delims u : chars_ok u ->
+  opt_ok (fun s => s <> [] /\ none_of [58; 47; 63; 35; 64; 91; 93; 37; 0] s) (scheme u)
+  /\ opt_ok (none_of [64; 47; 63; 35; 91; 93; 0]) (userInfo u)
+  /\ opt_ok (fun h => if is_lit u then none_of [91; 93; 47; 63; 35; 64; 37; 0] h
+                      else none_of [58; 47; 63; 35; 64; 91; 93; 0] h) (hostText u)
+  /\ opt_ok (none_of [58; 47; 63; 35; 64; 91; 93; 37; 0]) (portText u)
+  /\ Forall (none_of [47; 63; 35; 91; 93; 0]) (pathSegs u)
+  /\ opt_ok (none_of [35; 91; 93; 0]) (query u)
+  /\ opt_ok (none_of [35; 91; 93; 0]) (fragment u).
+Proof.
+  intros (Hs & Hu & Hh & Hp & Hg & Hq & Hf). repeat split.
+  - destruct (scheme u) as [s|]; [|exact I]. cbn [opt_ok] in *. destruct (scheme_ok_class _ Hs) as [H1 H2].
+    split; [exact H1|]. eapply class_none_of; [exact H2|vm_compute; reflexivity].
+  - destruct (userInfo u) as [t|]; [|exact I]. cbn [opt_ok] in *. destruct Hu as [Hu _].
+    eapply class_none_of; [exact Hu|vm_compute; reflexivity].
+  - destruct (hostText u) as [h|]; [|exact I]. cbn [opt_ok]. unfold is_lit.
+    destruct (is_some (ip6 u)); cbn [orb].
+    + eapply class_none_of; [exact Hh|vm_compute; reflexivity].
+    + destruct (is_some (ipFuture u)).
+      * eapply class_none_of; [exact Hh|vm_compute; reflexivity].
+      * destruct Hh as [Hh _]. eapply class_none_of; [exact Hh|vm_compute; reflexivity].
+  - destruct (portText u) as [t|]; [|exact I]. cbn [opt_ok] in *.
+    eapply class_none_of; [exact Hp|vm_compute; reflexivity].
+  - eapply Forall_impl; [|exact Hg]. intros s [Hc _]. eapply class_none_of; [exact Hc|vm_compute; reflexivity].
+  - destruct (query u) as [t|]; [|exact I]. cbn [opt_ok] in *. destruct Hq as [Hq _].
+    eapply class_none_of; [exact Hq|vm_compute; reflexivity].
+  - destruct (fragment u) as [t|]; [|exact I]. cbn [opt_ok] in *. destruct Hf as [Hf _].
+    eapply class_none_of; [exact Hf|vm_compute; reflexivity].
+Qed.
+
+(* ---------------------------------------------------------------- hypotheses of other properties *)
+Lemma forallb_excl cls k t : cls k = false -> forallb cls t = true -> forallb (fun c => negb (c =? k)) t = true.
+Proof.
+  intros Hk. apply forallb_mono. intros c Hc. destruct (c =? k) eqn:E; [|reflexivity].
+  apply N.eqb_eq in E. subst c. rewrite Hk in Hc. discriminate Hc.
+Qed.
+
+Lemma wf_is_host_set u : flags_ok parse_ip4 ip6_bytes u -> is_host_set u = is_some (hostText u).
+Proof.
+  intros [_ H]. unfold is_host_set. destruct (hostText u); [reflexivity|].
+  destruct H as (-> & -> & ->). reflexivity.
+Qed.
+
+(* what the resolution theorems (C06) assume of their arguments *)
+Theorem parsed_wf_resolution u : parsed_wf parse_ip4 ip6_bytes u ->
+  ResolveProofs.wf u = true /\ ResolveProofs.one_kind u = true.
+Proof.
+  intros (Hc & Hf & Hp & Ha). pose proof (wf_is_host_set u Hf) as Hhs.
+  destruct Hc as (Hs & _ & _ & _ & Hg & _ & _). destruct Hf as [_ Hf].
+  split.
+  - unfold ResolveProofs.wf. rewrite Hhs. apply andb_true_intro. split; [apply andb_true_intro; split|].
+    + rewrite forallb_forall. intros s Hs'. rewrite Forall_forall in Hg. destruct (Hg s Hs') as [Hcl _].
+      unfold DotSegments.noslash. revert Hcl. apply forallb_excl. vm_compute. reflexivity.
+    + unfold path_ok in Hp. destruct (hostText u) as [h|]; cbn [is_some].
+      * destruct Hf as [-> _]. reflexivity.
+      * unfold ResolveProofs.no_dslash, ResolveProofs.first_nonempty.
+        destruct (pathSegs u) as [|[|c s] r]; [destruct (absolutePath u); reflexivity| |destruct (absolutePath u); reflexivity].
+        destruct Hp as [Hp _]. exfalso. apply Hp. reflexivity.
+    + destruct (scheme u) as [s|]; [|reflexivity]. cbn [opt_ok] in Hs. destruct (scheme_ok_class _ Hs) as [_ H2].
+      unfold ResolveProofs.nonul. revert H2. apply forallb_excl. vm_compute. reflexivity.
+  - unfold ResolveProofs.one_kind. destruct (hostText u) as [h|].
+    + destruct Hf as [_ Hf]. destruct (ip6 u), (ipFuture u); try contradiction.
+      * destruct Hf as (-> & _). reflexivity.
+      * destruct Hf as (-> & _). reflexivity.
+      * destruct (ip4 u); reflexivity.
+    + destruct Hf as (-> & -> & _). reflexivity.
+Qed.
+
+(* what the normalization theorems (C08) assume *)
+Theorem parsed_wf_normalization u : parsed_wf parse_ip4 ip6_bytes u -> uri_wf u.
+Proof.
+  intros (Hc & Hf & Hp & Ha). pose proof (wf_is_host_set u Hf) as Hhs.
+  destruct Hc as (_ & Hu & Hh & _ & Hg & Hq & Hfr). destruct Hf as [_ Hf].
+  split; [|split].
+  - unfold uri_pct_wf, is_regname.
+    repeat (apply andb_true_intro; split).
+    + destruct (userInfo u); [exact (proj2 Hu)|reflexivity].
+    + destruct (hostText u) as [h|]; [|reflexivity]. cbn [is_some andb opt_pct_wf].
+      destruct (is_some (ip4 u)); [reflexivity|]. cbn [negb andb].
+      destruct (is_some (ip6 u)); [reflexivity|]. cbn [negb andb].
+      destruct (is_some (ipFuture u)); [reflexivity|]. exact (proj2 Hh).
+    + rewrite forallb_forall. intros s Hs'. rewrite Forall_forall in Hg. exact (proj2 (Hg s Hs')).
+    + destruct (query u); [exact (proj2 Hq)|reflexivity].
+    + destruct (fragment u); [exact (proj2 Hfr)|reflexivity].
+  - intros f Hfu. destruct (hostText u) as [h|].
+    + destruct Hf as [_ Hf]. rewrite Hfu in Hf. destruct (ip6 u); [contradiction|].
+      destruct Hf as (_ & -> & _). reflexivity.
+    + destruct Hf as (_ & _ & Hf). rewrite Hf in Hfu. discriminate Hfu.
+  - unfold lone_empty_hostless. rewrite Hhs. unfold path_ok in Hp.
+    destruct (hostText u); [reflexivity|]. cbn [is_some negb andb].
+    destruct (pathSegs u) as [|[|c s] [|s2 r]]; try reflexivity.
+    destruct Hp as [Hp _]. exfalso. apply Hp. reflexivity.
+Qed.
+
+Lemma class_nul_free cls t : cls 0 = false -> forallb cls t = true -> Identity.nul_free t.
+Proof.
+  intros H0 Ht Hi. rewrite forallb_forall in Ht. specialize (Ht 0 Hi). rewrite H0 in Ht. discriminate Ht.
+Qed.
+
+(* what the equality theorems (C11) assume *)
+Theorem parsed_wf_equality u : parsed_wf parse_ip4 ip6_bytes u -> Identity.uri_nul_free u.
+Proof.
+  intros (Hc & Hf & _ & _). destruct Hc as (Hs & Hu & Hh & Hpo & Hg & Hq & Hfr). destruct Hf as [_ Hf].
+  assert (Identity.opt_nul_free (hostText u)) as Hhost.
+  { destruct (hostText u) as [h|]; [|exact I]. cbn [Identity.opt_nul_free].
+    destruct (is_some (ip6 u)); [exact (class_nul_free _ _ eq_refl Hh)|].
+    destruct (is_some (ipFuture u)); [exact (class_nul_free _ _ eq_refl Hh)|].
+    exact (class_nul_free _ _ eq_refl (proj1 Hh)). }
+  unfold Identity.uri_nul_free. repeat split.
+  - destruct (scheme u) as [s|]; [|exact I]. cbn [opt_ok Identity.opt_nul_free] in *.
+    exact (class_nul_free _ _ eq_refl (proj2 (scheme_ok_class _ Hs))).
+  - destruct (userInfo u) as [t|]; [|exact I]. exact (class_nul_free _ _ eq_refl (proj1 Hu)).
+  - exact Hhost.
+  - destruct (ipFuture u) as [f|] eqn:Efu; [|exact I]. destruct (hostText u) as [h|].
+    + destruct Hf as [_ Hf]. destruct (ip6 u); [contradiction|]. destruct Hf as (_ & -> & _). exact Hhost.
+    + destruct Hf as (_ & _ & Hf). discriminate Hf.
+  - destruct (portText u) as [t|]; [|exact I]. exact (class_nul_free _ _ eq_refl Hpo).
+  - eapply Forall_impl; [|exact Hg]. intros s [Hcl _]. exact (class_nul_free _ _ eq_refl Hcl).
+  - destruct (query u) as [t|]; [|exact I]. exact (class_nul_free _ _ eq_refl (proj1 Hq)).
+  - destruct (fragment u) as [t|]; [|exact I]. exact (class_nul_free _ _ eq_refl (proj1 Hfr)).
+Qed.
+
+Corollary parse_wf_resolution s u : parse s = POk u ->
+  ResolveProofs.wf u = true /\ ResolveProofs.one_kind u = true.
+Proof. intros H. exact (parsed_wf_resolution u (parse_wf s u H)). Qed.
+Corollary parse_wf_normalization s u : parse s = POk u -> uri_wf u.
+Proof. intros H. exact (parsed_wf_normalization u (parse_wf s u H)). Qed.
+Corollary parse_wf_equality s u : parse s = POk u -> Identity.uri_nul_free u.
+Proof. intros H. exact (parsed_wf_equality u (parse_wf s u H)). Qed.
